@@ -102,6 +102,7 @@ structure St where
   strict : List String := []      -- driver args: finding classes to report as SPECFAIL (else counted)
   taint : List (Nat × Nat) := []      -- (connector, disabled edges at its checkpoint vertices) after this transaction
   taintPrev : List (Nat × Nat) := []  -- the same after the previous transaction
+  crossStage : Bool := false          -- crossing / shared-path penalty set: connectors can be searched twice in a transaction
   skipped : List Nat := []            -- connectors whose current route() may stem from a search that skipped a checkpoint
   deriving Inhabited
 
@@ -198,6 +199,14 @@ abbrev VKey := Nat × Nat × Rat × Rat
 def restrictedConn (c : ConnRec) : Bool := c.cpd.any (fun (a, d) => a != 15 || d != 15)
 
 def taintOf (t : List (Nat × Nat)) (c : Nat) : Nat := (lookup t c).getD 0
+
+/-- could the last search of connector `c` have run on a graph with edges of its checkpoint vertices
+    still disabled by an earlier search? Polyline visibility edges persist between transactions, so
+    edges seen disabled after the previous transaction count; the orthogonal graph is rebuilt for every
+    transaction, there (and for polyline too) edges seen disabled after this transaction count when the
+    crossing stage can have searched the connector a second time within it. -/
+def leftover (s : St) (c : ConnRec) : Bool :=
+  (!c.orth && taintOf s.taintPrev c.id > 0) || (s.crossStage && taintOf s.taint c.id > 0)
 
 /-- Per transaction and connector with checkpoints: the model graph is built from the edges the
     harness read at the checkpoint vertices (directions recomputed with the model of `directionFrom`
@@ -468,8 +477,7 @@ def checkEnds (s : St) : St := Id.run do
   let np := noPathConns s og
   for c in np do
     let cr := (s.conns.find? (·.id == c)).getD default
-    let t := taintOf s.taint c + taintOf s.taintPrev c
-    if t > 0 then
+    if leftover s cr then
       -- not the known class: the search ran on a graph on which an earlier search of this connector had
       -- left edges of its checkpoint vertices disabled
       s := { s with fails := s!"cp-restricted: step {s.stepNo}: connector {c}: route() is the no-path fallback (straight dummy line / stops at a checkpoint) {((lookup s.cur.routes c).getD []).map showP}; visibility edges of its checkpoint vertices were left disabled by an earlier search ({taintOf s.taintPrev c} after the previous transaction, {taintOf s.taint c} after this one)" :: s.fails }
@@ -495,7 +503,7 @@ def checkEnds (s : St) : St := Id.run do
             -- a member with direction-restricted checkpoints may have failed to route for that reason
             -- (class cp-dirs) and then holds no pin; with leftover disabled edges it is a plain failure
             let restr := allEnds.filter (fun e => restrictedConn ((s.conns.find? (·.id == e.conn)).getD default))
-            let tainted := restr.any (fun e => taintOf s.taint e.conn + taintOf s.taintPrev e.conn > 0)
+            let tainted := restr.any (fun e => leftover s ((s.conns.find? (·.id == e.conn)).getD default))
             if which == "displayRoute()" && allEnds.any (·.hyper) then s := gated s "hyper-disp" msg
             else if !restr.isEmpty && !tainted then s := gated s "cp-dirs" msg
             else s := { s with fails := msg :: s.fails }
@@ -594,9 +602,8 @@ def checkOthers (s : St) : St := Id.run do
               let sub := if !checkpointsInOrder (simplify r) c.cps then "cut by simplify()" else "simplify(route()) still visits them: lost in nudging / post-processing"
               s := gated s "cp-disp" s!"step {s.stepNo}: connector {c.id}: checkpoints {c.cps.map showP} visited by route() but not by displayRoute() {rt.map showP} ({sub})"
             else
-              let t := taintOf s.taint c.id + taintOf s.taintPrev c.id
               let msg := s!"step {s.stepNo}: connector {c.id}: checkpoints {c.cps.map showP} not visited in order by {which} {rt.map showP}"
-              if t > 0 then
+              if leftover s c then
                 s := { s with fails := s!"cp-restricted: {msg}; visibility edges of its checkpoint vertices were left disabled by an earlier search ({taintOf s.taintPrev c.id} after the previous transaction, {taintOf s.taint c.id} after this one)" :: s.fails }
               else if restrictedConn c then
                 -- class cp-dirs: the leg-by-leg search honours a checkpoint's arrival / departure masks only
@@ -695,7 +702,7 @@ def feed (s : St) (l : Array String) : St :=
     let ds := (List.range (nat! l[2]!)).map (fun i => (nat! l[3 + 2 * i]!, nat! l[4 + 2 * i]!))
     let s := ds.foldl (fun s (a, d) => bump s ("cpdirs." ++ (if a == 15 then "A" else "r") ++ (if d == 15 then "A" else "r"))) s
     { s with conns := s.conns.map (fun c => if c.id == id then { c with cpd := ds } else c) }
-  | "pens" => if rat! l[2]! > 0 || rat! l[3]! > 0 then bump s "cfg.crossing-stage" else s
+  | "pens" => if rat! l[2]! > 0 || rat! l[3]! > 0 then { (bump s "cfg.crossing-stage") with crossStage := true } else s
   | "cpv" =>
     let n := int! l[3]!
     let es : Option (List CpEdge) := if n < 0 then none else
